@@ -485,4 +485,42 @@ theorem refines : ∀ (r : List SLayer) (b : Bytes), (demand r b).agrees (matchS
     | dhcpv6 h => exact refine_dhcpv6 h rest b
     | arp s t => exact refine_arp s t rest b
 
+/-- where no reserved octet is set, the receiver's walk of RFC 8200 is the walk of the specification -/
+theorem skipExtsRFC_eq : ∀ (f : Nat) (cur : UInt8) (b : Bytes), fragReservedSet f cur b = false →
+    skipExtsRFC f cur b = skipExts f cur b
+  | 0, cur, b, _ => by simp [skipExtsRFC, skipExts]
+  | f + 1, cur, b, h => by
+    unfold fragReservedSet at h
+    unfold skipExtsRFC skipExts
+    by_cases hw : v6Walkable cur = true
+    · simp only [hw, if_true] at h ⊢
+      by_cases h44 : cur = 44
+      · subst h44
+        simp only [beq_self_eq_true, if_true, Bool.true_and] at h ⊢
+        by_cases h1 : b.getD 1 0 = 0
+        · have hz : ((0 : UInt8).toNat + 1) * 8 = 8 := rfl
+          simp only [h1, hz, beq_self_eq_true, bne_self_eq_false, Bool.false_eq_true, if_false, Bool.true_and] at h ⊢
+          by_cases hlen : 8 < b.length
+          · simp only [hlen, if_true] at h ⊢
+            split
+            · rfl
+            · rename_i hc
+              simp only [hc, if_false] at h
+              exact skipExtsRFC_eq f _ _ h
+          · simp [hlen]
+        · have hne : (b.getD 1 0 != 0) = true := by simpa using h1
+          by_cases hlen : 8 < b.length
+          · simp only [hlen, if_true, hne] at h
+            exact absurd h (by decide)
+          · have : ¬ ((b.getD 1 0).toNat + 1) * 8 < b.length := by omega
+            simp only [hlen, this, if_false]
+      · have hb : (cur == 44) = false := by simpa using h44
+        simp only [hb, Bool.false_eq_true, if_false, Bool.false_and] at h ⊢
+        split
+        · rename_i hn
+          simp only [hn, if_true] at h
+          exact skipExtsRFC_eq f _ _ h
+        · rfl
+    · simp [hw]
+
 end Tins.Matching
